@@ -471,9 +471,9 @@ fn check(case: &Case, obs: &mut Obs) -> Verdict {
 
 fn subs() -> Vec<Sub> {
     vec![
-        gen_sub("long_lines", |t| doc_strategy_sized(false, 3, t.pick(1200, 4000)).prop_map(Case::Doc).boxed(), |t| t.pick(200, 4_000), check),
-        gen_sub("documents", |t| doc_strategy(t, true).prop_map(Case::Doc).boxed(), |t| t.pick(40_000, 800_000), check),
-        gen_sub("index_documents", |t| index_doc_strategy(t).prop_map(Case::Index).boxed(), |t| t.pick(6_000, 120_000), check),
+        gen_sub("long_lines", |t| doc_strategy_sized(false, 3, t.pick(1200, 4000)).prop_map(Case::Doc).boxed(), |t| t.pick(600, 4_000), check),
+        gen_sub("documents", |t| doc_strategy(t, true).prop_map(Case::Doc).boxed(), |t| t.pick(160_000, 800_000), check),
+        gen_sub("index_documents", |t| index_doc_strategy(t).prop_map(Case::Index).boxed(), |t| t.pick(24_000, 120_000), check),
     ]
 }
 
